@@ -167,9 +167,28 @@ func runC02Direct(delayMs, bundle int, ops []c02Op) ([]lab.Event, []lab.Violatio
 		}
 		gateMu.Unlock()
 	}
+	// "gatetxn": the NEXT transaction is slow to start (the store takes Arg ms to respond), later
+	// ones are served at once.
+	var (
+		txnGateMu sync.Mutex
+		txnStall  time.Duration
+	)
+	w.DB.NewTxnGate = func() {
+		txnGateMu.Lock()
+		d := txnStall
+		txnStall = 0
+		txnGateMu.Unlock()
+		if d > 0 {
+			time.Sleep(d)
+		}
+	}
 	for _, op := range ops {
 		stats[op.Op]++
 		switch op.Op {
+		case "gatetxn":
+			txnGateMu.Lock()
+			txnStall = time.Duration(op.Arg) * time.Millisecond
+			txnGateMu.Unlock()
 		case "ack":
 			if !open || next+op.Arg > total {
 				continue
@@ -220,6 +239,9 @@ func runC02Direct(delayMs, bundle int, ops []c02Op) ([]lab.Event, []lab.Violatio
 		}
 	}
 	release()
+	txnGateMu.Lock()
+	txnStall = 0
+	txnGateMu.Unlock()
 	w.DB.Disarm()
 	closeSrc()
 	done := make(chan struct{})
@@ -257,7 +279,10 @@ func runC02Direct(delayMs, bundle int, ops []c02Op) ([]lab.Event, []lab.Violatio
 }
 
 func genC02Ops(t *rapid.T) []c02Op {
-	n := rapid.IntRange(5, 60).Draw(t, "nops")
+	return genC02OpsN(t, rapid.IntRange(5, 60).Draw(t, "nops"), true)
+}
+
+func genC02OpsN(t *rapid.T, n int, allowLong bool) []c02Op {
 	ops := make([]c02Op, 0, n)
 	for i := 0; i < n; i++ {
 		k := rapid.IntRange(0, 99).Draw(t, "op")
@@ -280,10 +305,14 @@ func genC02Ops(t *rapid.T) []c02Op {
 			ms := rapid.IntRange(1, 6).Draw(t, "gatems")
 			// rarely a store that stalls for seconds (time-bounded fall-backs in the engine only
 			// show with a stall longer than their bound); costs real time, hence rare
-			if lab.Uniform(t, "longstall", pbt.Scale(160, 40)) == 0 {
+			if allowLong && pbt.Tier() == "thorough" && lab.Uniform(t, "longstall", 40) == 0 {
 				ms = 5500
 			}
-			ops = append(ops, c02Op{Op: "gate", Arg: ms})
+			if rapid.Bool().Draw(t, "attxn") {
+				ops = append(ops, c02Op{Op: "gatetxn", Arg: ms})
+			} else {
+				ops = append(ops, c02Op{Op: "gate", Arg: ms})
+			}
 		case k < 94:
 			ops = append(ops, c02Op{Op: "release"})
 		case k < 97:
@@ -314,6 +343,63 @@ func TestC02Direct(t *testing.T) {
 				cls = append(cls, "direct:"+k)
 			}
 		}
+		st.Case(pbt.Hash(rp), nontrivial, cls...)
+		if nontrivial && st.WantSample() {
+			st.Sample(map[string]any{"direct": rp, "history_tail": historyLines(tail(events, 30))})
+		}
+		fatal := false
+		var first lab.Violation
+		for _, v := range vs {
+			rp.History = historyLines(events)
+			if st.Report(v.Key, v.Detail, len(ops), rp) {
+				if !fatal {
+					first = v
+				}
+				fatal = true
+			}
+		}
+		if fatal {
+			t.Fatalf("%s", first.String())
+		}
+	})
+}
+
+// TestC02Stall: every case contains one store stall longer than any time-bounded fall-back
+// around the persister (seconds of wall time), immediately followed by work that needs the
+// next flush. A bounded wait that gives up on a store that is merely slow shows as a stored
+// position that moves backwards or as a plugin ack for a position that is not durable.
+func TestC02Stall(t *testing.T) {
+	st := pbt.For("C02")
+	defer st.Finish(t)
+	rapid.Check(t, func(t *rapid.T) {
+		delay := []int{1, 2, 5}[rapid.IntRange(0, 2).Draw(t, "delay")]
+		bundle := []int{1, 2, 5, 1000}[lab.Uniform(t, "bundle", 4)]
+		pre := genC02OpsN(t, rapid.IntRange(0, 8).Draw(t, "npre"), false)
+		post := genC02OpsN(t, rapid.IntRange(0, 10).Draw(t, "npost"), false)
+		stall := c02Op{Op: "gate", Arg: 5500}
+		if rapid.Bool().Draw(t, "attxn") {
+			stall.Op = "gatetxn"
+		}
+		ops := append([]c02Op{}, pre...)
+		ops = append(ops, stall)
+		// the work behind the stall: acks and explicit flushes, at least two
+		nw := 2 + lab.Uniform(t, "nwork", 4)
+		for i := 0; i < nw; i++ {
+			switch lab.Uniform(t, "work", 4) {
+			case 0:
+				ops = append(ops, c02Op{Op: "flush"})
+			case 1:
+				ops = append(ops, c02Op{Op: "sleeplong"})
+			default:
+				ops = append(ops, c02Op{Op: "ack", Arg: rapid.IntRange(1, 4).Draw(t, "k")})
+			}
+		}
+		ops = append(ops, post...)
+		rp := c02Replay{DelayMs: delay, Bundle: bundle, Ops: ops}
+		pbt.MarkCurrent("C02", rp)
+		events, vs, stats := runC02Direct(delay, bundle, ops)
+		nontrivial := stats["ack"] >= 2
+		cls := []string{"part=stall", "stall:" + stall.Op}
 		st.Case(pbt.Hash(rp), nontrivial, cls...)
 		if nontrivial && st.WantSample() {
 			st.Sample(map[string]any{"direct": rp, "history_tail": historyLines(tail(events, 30))})
